@@ -46,6 +46,21 @@ func (c04) Gen(rt *rapid.T, thorough bool) any {
 	if rapid.Bool().Draw(rt, "starve") {
 		s.Knobs.Starve = []string{"go@plugin_logger"}
 	}
+	if rapid.IntRange(0, 4).Draw(rt, "contention") == 0 {
+		// contention preset: many producers hammering a full buffer whose worker is held, with a
+		// scheduling choice at every step - the overflow paths race against each other
+		s.Policy = rapid.SampledFrom([]string{"DiscardOldest", "DiscardOldest", "Discard"}).Draw(rt, "contention_policy")
+		s.Gate, s.Knobs.Dense, s.Knobs.Strategy, s.Knobs.Starve = 2, true, 0, nil
+		s.Producers = nil
+		np := rapid.IntRange(4, maxProd).Draw(rt, "contention_producers")
+		for p := 0; p < np; p++ {
+			var ops []AOp
+			for i := 0; i < 400/np+8; i++ {
+				ops = append(ops, AOp{Lvl: "ERROR", Raw: (p+i)%5 == 0, Size: 2})
+			}
+			s.Producers = append(s.Producers, ops)
+		}
+	}
 	return s
 }
 
